@@ -68,6 +68,25 @@ PROPS = {
                         "gqlparser's validation of client queries is taken as given (only validated operations are emitted)"] + ["goroutines are identified by a github.com/movio/bramble frame on their stack; net/http connection and body lifetimes are not observed"],
         "partial": "termination of the transition system is not yet proved (released/limit are); client cancellation is exercised by the harness only",
     },
+    "C10": {
+        "harness": [{"name": "c10"}],
+        "n_quick": 200, "n_thorough": 4000,
+        "assumptions": ["the harness's schema texts are classified by construction (valid / syntax error / rule violation / conflicting); MergeSchemas is abstracted as 'fails on no schema and on two conflicting versions' in the correspondence, and is an arbitrary parameter in the theorem",
+                        "which (service, version) is published is read from marker fields of MergedSchema and cross-checked against Locations, IsBoundary and BoundaryQueries"],
+    },
+    "C19": {
+        "harness": [{"name": "c19"}],
+        "n_quick": 300, "n_thorough": 6000,
+        "assumptions": ["golang-jwt's parser, base64/JSON decoding, RSA verification and the clock are oracles of the model (the harness states what they report for each constructed token); jwt.TimeFunc is pinned"],
+        "partial": "the cryptographic validity of a token is an oracle, not modelled",
+    },
+    "C20": {
+        "harness": [{"name": "c20"}],
+        "n_quick": 150, "n_thorough": 3000,
+        "assumptions": ["reloads are triggered synchronously through the build-tagged VerifReload wrapper; fsnotify delivery is not modelled",
+                        "a fresh start is GetConfig on the same file with a new JWT plugin instance in the same process"],
+        "partial": "only the service list, the JWT role table and key ids, and the poll interval are modelled among the reloadable settings",
+    },
 }
 
 # ---- manifest texts ------------------------------------------------------------------------------------
@@ -122,6 +141,21 @@ META = {
         "text": "Theorems C13_released (every terminal state of every schedule has main returned, no step goroutine, collector exited — for all plans, outcome oracles, limits), C13_limit (lookup rounds sent <= max in every reachable state) and C13_released_refuted_before_fix (the error path at d802d19 leaked the collector; repaired by fix d3a4cc6). Tie + direct oracles: random queries under limits 0..6 and 50, faults, and client cancellation at a random gate: the request terminates, <= 1 root request per service, lookups <= limit, a limit-exceeded response has no data, and no goroutine with a bramble frame survives; the sequential model reproduces the response including the limit outcome.",
         "note": "Termination is observed (20 s watchdog), not yet proved; the selection-growth finding (KF-selection-growth) bounds 'bounded work' from below and is recorded.",
         "technique": "Coq invariants over a transition system (all schedules) + goroutine-stack inspection + request counting under a gating transport",
+    },
+    "C10": {
+        "text": "Theorem C10_published: for EVERY finite history of poll outcomes and service-list replacements, and for arbitrary parse/validate/merge parameters (only: the empty source is invalid, nothing merges from nothing), the published generation equals the specification recomputed after each event — merge of the latest schemas of the listed services whose most recent poll succeeded, else the previous generation. Proof by an invariant relating each cached service's source, schema and status. C10_gauge characterises the indicator; its stronger reading is refuted. Tie: random histories through the real UpdateSchema/UpdateServiceList with a scripted transport; after every event the published version set, the consistency of the four tables, the service map with statuses and the invalid-schema gauge are compared with the model and with the specification.",
+        "note": "Merging itself is a parameter here (C07/C08 are about it). The Go map iteration / goroutine completion order of a poll is abstracted: the model keeps list order, comparisons are as sets.",
+        "technique": "Coq invariant proof over all histories of a state machine + differential correspondence on scripted histories",
+    },
+    "C19": {
+        "text": "Theorems C19_fails_closed (a request is let through only with no token and exactly the public role's permissions, or with a well-formed RSA-signed token whose kid is configured, whose signature verifies under that key, whose time claims hold and whose role is configured — then exactly that role's permissions and claim headers) and C19_any_defect_rejects, by exhaustive case analysis of the decision tree. Tie: random role tables and key sets x tokens built from a valid one by each single defect (tampered, other key, unconfigured key, unknown/missing kid, none, HS256 with the public PEM, PS256, expired, not yet valid, malformed, Basic, empty bearer, unknown/empty role), via header and cookie, through the real gateway: HTTP status, zero downstream requests on 401, the permission set in force (probe query) and the claim headers on every downstream call must match the model.",
+        "note": "Token parsing and RSA verification are oracles (golang-jwt).",
+        "technique": "Coq case analysis of a decision-tree model + single-defect token enumeration against the real middleware",
+    },
+    "C20": {
+        "text": "Theorems C20_reload_equals_restart_partial (for any state left by any history, an accepted reload puts in effect exactly what a fresh start computes from the same file and environment, under the guard of the recorded stale-scalar finding), C20_failed_edit_keeps_config, C20_refuted_stale_scalar (full statement false on the current code: witness), and refutations of the d802d19 behaviour repaired by fix commits 90f22df and f91d55c. Tie: random edit histories (services added/removed/reordered/duplicated/omitted, roles and keys added/removed/omitted, invalid JSON, wrong types, invalid durations, BRAMBLE_SERVICE_LIST) with a synchronous reload after each edit; Config.Services, ExecutableSchema.Services, the JWT role table and key ids are compared with the model and with a fresh start on the same file.",
+        "note": "Found by this check and recorded: an invalid poll-interval from a rejected edit poisons later valid edits (KF-stale-config-scalar).",
+        "technique": "Coq state-machine model with proofs and refutation witnesses + differential correspondence on scripted edit histories",
     },
 }
 
